@@ -108,6 +108,30 @@ CLAIMS = {
         "technique": "Lean 4 proof (structural recursion over the history tree) + output differential + independent manifest monitor",
         "design_ref": "7 C19",
     },
+    "C10": {
+        "text": "Theorems about the writer (toXml), the event stream and the event-driven reader (state machine with current object, object stack, structure flag) of the model: parse(toXml g) = norm g for every well-formed generation, where WfGen is proved to be EXACTLY the weakest condition (iff) and norm is the documented representation shift (last-modification dates written but not read, file entries sorted by format, root hash path '.', ignore list de-duplicated / defaulted); the reader never returns an unsupported format or a record named '.'; norm is idempotent; equal element trees give equal normal forms (an independent reader of the infoset extracts the same values); chain files read back as written and appending an entry leaves the earlier ones unchanged; sizes including 0 and an author named '-' round-trip (the former defects). Tie: random well-formed generations and chains built as ascmhl objects -> write_hash_list/write_chain -> the tool's reader AND an independent ElementTree reader, compared field by field with what was written and with the model's tree / parse / norm; strings with XML specials, non-ASCII, astral, NFC/NFD, U+2028/2029, leading/trailing/multiple spaces.",
+        "note": "The lexical XML layer (lxml/libxml2 escaping, encoding, pretty printing) is exercised by the tie, not modelled; hash dates are compared as instants. " + COMMON_NOTE,
+        "technique": "Lean 4 proof (fold over the event list, per-subtree lemmas, invariant of the reader) + object-level write/read differential with an independent reader",
+        "design_ref": "7 C10",
+    },
+    "C11": {
+        "text": "Theorems about a GENERIC schema validator applied to the content models REGENERATED from xsd/ASCMHL.xsd and xsd/ASCMHLDirectory.xsd on every run: for every generation satisfying XsdWf (dates in the xs:dateTime lexical space, process and actions in the enumerations, e-mail matching the pattern, per record pairwise distinct supported formats - sorted by the writer for files, already in schema order for directories - non-empty ignore list) the written manifest is valid, including generations without records (no <hashes> element: the former defect) and with references only; every non-empty chain is valid; per-element-builder validity with explicit fuel bounds; negative sanity (empty <hashes/>, repeated format, wrong order, missing version, action 'new', chain entry without c4, text in element-only content are INVALID). Tie/monitor: every distinct manifest / chain / collection file written in the scenario pool (all option combinations, nested parents that receive only references, empty folders, failing runs, flatten) validated with lxml.etree.XMLSchema AND the JDK validator; the model's validator vs lxml on these files and on structurally mutated variants (both directions); the model's writer on random well-formed generations.",
+        "note": "Namespaces are not modelled in the Lean validator (lxml and the JDK check them on the real files). " + COMMON_NOTE,
+        "technique": "Lean 4 proof over a regenerated schema value (greedy content-model matcher with explicit fuel bounds) + two independent schema validators on all written files + validator differential",
+        "design_ref": "7 C11",
+    },
+    "C15": {
+        "text": "Theorems about the write protocol of the repaired code (manifest and chain each written to <name>.tmp and moved into place with an atomic replace; children before parents) for EVERY crash state (every prefix of the operations, the last write torn at any byte) and every file system: every other path keeps its bytes (all previously committed manifests, all media); the chain is the old one or the complete new one, never partial; the manifest is absent or complete; a new chain implies a complete manifest; the only partial files are the two temporaries, which the loader never looks at; stale temporaries of an earlier crash change nothing; for several histories the crash state is some complete commits followed by one interrupted commit, and a parent's chain is new only if all its children's commits are complete; with at least one prior generation no crash state is refused with 32. The residual is a theorem too: a FIRST-ever create has crash states (after mkdir / between the two replaces) that every command refuses with 32 - recorded as known finding D6b because C05 demands exactly that refusal. Tie/monitor: the recorded file-system operations of the real create must be accepted by the model's protocol automaton; every crash state is materialised on a copy of the pre-state and examined with info/verify (committed manifests identical, chain parses and lists them, no partial generation visible).",
+        "note": "Process kill, not power loss (no reordering of writes); os.replace atomic. " + COMMON_NOTE,
+        "technique": "Lean 4 proof (phase characterisation of every crash state) + operation-trace refinement + exhaustive crash-state replay on the implementation",
+        "design_ref": "7 C15",
+    },
+    "C20": {
+        "text": "Theorems about a labelled transition system main thread || daemon checker thread || server, for EVERY command, EVERY server behaviour (reply with any version flags, garbage, request exception, other exception, never) and EVERY interleaving: the exit code is the command's; stdout is the command's output optionally followed by exactly the notice, never for a command that raised; the process exits at most the join timeout after the command finished; the notice appears only if a strictly newer final release was stored BEFORE it was read; the main thread is never blocked (no deadlock, strict progress); tracebacks of the checker reach only stderr; exited states with and without the notice are both reachable for a newer version (the race is real). Tie/monitor: both CLI groups run in a fresh interpreter per case with requests.get stubbed before the import that starts the thread: 17 server behaviours x commands ending with 0/10/11/30: exit code, stdout minus one trailing notice, duration within 1 s (+slack) of the bare command; a process that does not terminate is a violation.",
+        "note": "CPython's scheduler, click's result-callback plumbing and daemon-thread teardown are exercised by the tie, not modelled. " + COMMON_NOTE,
+        "technique": "Lean 4 proof (inductive invariant over all interleavings of the LTS) + fresh-interpreter behavioural monitor",
+        "design_ref": "7 C20",
+    },
 }
 
 
